@@ -533,6 +533,12 @@ class Executor:
     def ev_Index(self, n, st):
         def k(s, vs):
             b, i = vs
+            from .stdmodels import _concrete_elems
+            ce = _concrete_elems(b) if isinstance(b, tuple) and b and b[0] == "app" else None
+            if ce is not None and is_lit(i) and isinstance(i[1], int) and not isinstance(i[1], bool):
+                if 0 <= i[1] < len(ce):
+                    return [(s, ("val", ce[i[1]]))]
+                return [(s, ("panic", "index out of bounds"))]
             return [(s, ("val", app("index", b, i)))]
         return self.bind(self.ev_list([n["base"], n["idx"]], st), k)
 
